@@ -159,6 +159,21 @@ def check(ctx):
                            message='%s: the line sliced is not guarded by '
                                    'startswith("Path=")' % cmd)
     ctx.require(n_un, 'C03: no reader decodes a Path (anchor vanished)')
+    for cmd in ('list', 'restore', 'rm', 'empty'):
+        bb = ctx.graph(cmd)
+        seen = set()
+        for n in bb.nodes('mcall'):
+            if n.data['name'] in ('read', 'readline', 'readlines') and contains(
+                    n.data['recv'], lambda x: isinstance(x, Call) and x.fn in ('open', 'io.open')):
+                key = (n.func, n.src)
+                if key in seen:
+                    continue
+                seen.add(key)
+                ctx.ob('R03.4', '%s reads the whole .trashinfo' % cmd,
+                       n.data['name'] == 'read' and not n.data['args'] and not n.data['kwargs'],
+                       node=n, message='%s reads a .trashinfo with %s: a long (percent-escaped) '
+                                       'Path is cut and the DeletionDate line lost'
+                                       % (cmd, n.src))
     for cmd in ('list', 'restore', 'empty'):
         for what, node, term in date_uses(ctx, cmd):
             for sp in strptime_calls(term):
